@@ -60,6 +60,13 @@ func verifConfigsScript(nops int, variant int) {
 		other = verifConfigHistory("c19b.h5", ops, vals, WithLazyRebalancing(LazyThreshold(0.05), LazyMaxDelay(time.Nanosecond), LazyBatchSize(1)))
 	case 2:
 		other = verifConfigHistory("c19b.h5", ops, vals, WithLazyRebalancing())
+	case 3:
+		// (in schedule mode: a background goroutine started by the option would be run and would have to end by Close)
+		other = verifConfigHistory("c19b.h5", ops, vals, WithLazyRebalancing(), WithIncrementalRebalancing(IncrementalInterval(time.Microsecond), IncrementalBudget(time.Microsecond)))
+		vrt.AssertNoGoroutines("close-stops-background-work")
+	case 4:
+		other = verifConfigHistory("c19b.h5", ops, vals, WithSmartRebalancing(SmartAutoDetect(true), SmartAutoSwitch(true)))
+		vrt.AssertNoGoroutines("close-stops-background-work")
 	}
 	vrt.Assert(len(ref) == len(other), "config-same-file-size")
 	if len(ref) == len(other) {
@@ -74,6 +81,68 @@ func verifConfigsScript(nops int, variant int) {
 	vrt.Covered("configs-compared")
 }
 
+// every attribute of a dense object deleted one after the other (the index shrinks to one record, then to none), then
+// two new ones: default configuration vs each other configuration, byte-identical files
+func verifConfigDeleteAll(variant int) {
+	vrt.LoopBound(200000)
+	hist := func(name string, order int, v1, v2 int32, opts ...interface{}) []byte {
+		all := append([]interface{}{WithSuperblockVersion(2)}, opts...)
+		fw, err := CreateForWrite(name, CreateTruncate, all...)
+		vrt.AssertNoErr(err, "create-ok")
+		ds, err := fw.CreateDataset("/d", Int32, []uint64{1})
+		vrt.AssertNoErr(err, "create-dataset-ok")
+		vrt.AssertNoErr(ds.Write([]int32{7}), "write-ok")
+		names := []string{"a0", "a1", "a2", "a3", "a4", "a5", "a6", "a7", "a8"}
+		for i, n := range names {
+			vrt.AssertNoErr(ds.WriteAttribute(n, int32(i)), "prefix-attr-ok")
+		}
+		for i := range names {
+			k := i
+			if order == 1 {
+				k = len(names) - 1 - i
+			} else if order == 2 {
+				k = (i*4 + 3) % 9
+			}
+			vrt.AssertNoErr(ds.DeleteAttribute(names[k]), "delete-present-ok")
+		}
+		vrt.AssertNoErr(ds.WriteAttribute("after_a", v1), "attr-after-ok")
+		vrt.AssertNoErr(ds.WriteAttribute("after_b", v2), "attr-after-ok")
+		vrt.AssertNoErr(fw.Close(), "close-ok")
+		b, err := os.ReadFile(name)
+		vrt.AssertNoErr(err, "raw-read-ok")
+		return b
+	}
+	order := vrt.Choice(3)
+	v1, v2 := vrt.I32(), vrt.I32()
+	ref := hist("c19a.h5", order, v1, v2)
+	var other []byte
+	switch variant {
+	case 0:
+		other = hist("c19b.h5", order, v1, v2, WithBTreeRebalancing(false))
+	case 1:
+		other = hist("c19b.h5", order, v1, v2, WithLazyRebalancing(LazyThreshold(0.05), LazyMaxDelay(time.Nanosecond), LazyBatchSize(1)))
+	default:
+		other = hist("c19b.h5", order, v1, v2, WithBTreeRebalancing(false), WithLazyRebalancing())
+	}
+	vrt.Assert(len(ref) == len(other), "config-same-file-size")
+	if len(ref) == len(other) {
+		same := true
+		for i := range ref {
+			if ref[i] != other[i] {
+				same = false
+			}
+		}
+		vrt.Assert(same, "config-byte-identical-content")
+	}
+	vrt.Covered("configs-compared")
+}
+
+func VerifH_C19_api_config_delete_all_norebalance() { verifConfigDeleteAll(0) }
+func VerifH_C19_api_config_delete_all_lazy() { verifConfigDeleteAll(1) }
+func VerifH_C19_api_config_delete_all_both() { verifConfigDeleteAll(2) }
+
 func VerifH_C19_api_config_norebalance() { verifConfigsScript(2, 0) }
 func VerifH_C19_api_config_lazy_eager() { verifConfigsScript(2, 1) }
 func VerifH_C19_api_config_lazy_default() { verifConfigsScript(2, 2) }
+func VerifH_C19_api_config_incremental_sched() { verifConfigsScript(2, 3) }
+func VerifH_C19_api_config_smart_sched() { verifConfigsScript(2, 4) }
